@@ -5,6 +5,7 @@ use strum_macros::{Display, EnumString};
 use crate::{
     device::{Device, DEVICES},
     expr::Expr,
+    instruction::operation::Operation,
     parser::{
         parse_file_internal, CodePoint, DataDefine, Item, NextItem, ParseContext, Segment,
         SegmentType,
@@ -221,8 +222,25 @@ impl Directive {
                         if value < 0 || value > std::u32::MAX as i64 {
                             bail!("address {} of .org is out of range, {}", value, point);
                         }
+                        let current_type = context.last_segment().unwrap().borrow().t;
+                        // zero address of segment means that there is no origin, so origin 0
+                        // behind something that takes place is reported here
+                        if value == 0
+                            && segments.borrow().iter().any(|segment| {
+                                let segment = segment.borrow();
+                                segment.t == current_type
+                                    && (segment.address != 0
+                                        || segment.items.iter().any(|(_, item)| match item {
+                                            Item::Instruction(Operation::Custom(_), _) => false,
+                                            Item::Instruction(..) | Item::Data(..) => true,
+                                            Item::ReserveData(size) => *size > 0,
+                                            _ => false,
+                                        }))
+                            })
+                        {
+                            bail!("segment overlapping isn't supported, {}", point);
+                        }
                         if !context.last_segment().unwrap().borrow().is_empty() {
-                            let current_type = context.last_segment().unwrap().borrow().t;
                             context.add_segment(Segment::new(current_type));
                         }
                         context.last_segment().unwrap().borrow_mut().address = value as u32;
